@@ -16,7 +16,16 @@ RULE = ("a case is one TYPE-LEVEL configuration (never a value pair): "
         "generate_layer_data_type_map); 'merge' = 2..4 operand types + merge "
         "layer name -> MergeFactory().make_quantizer; 'mono' = one of the "
         "above + one widening step (operand bits+1, bits+1&int_bits+1, po2 "
-        "bits+1 / cap x2 / cap removed, N -> N+1, use_bias False -> True).  "
+        "bits+1 / cap x2 / cap removed, N -> N+1, use_bias False -> True); "
+        "'seq' = a SEQUENCE of acc/add/bias/merge items served in order by "
+        "ONE instance of MultiplierFactory, AccumulatorFactory, IAdder and "
+        "MergeFactory (families of types differing only in max_val_po2 / "
+        "int_bits / class name, in ascending, descending and interleaved "
+        "order; one multiplier over many kernel shapes; one operand list over "
+        "all merge layers), an item failing only on the shared factories is "
+        "'stale_factory_state'.  Kernel shapes: dense (n,o), rank-3 (k,ci,co) "
+        "and rank-4 (kh,kw,ci,co) with every (c_in,c_out) in {1,2,many}^2 and "
+        "dense (n,1).  "
         "Deterministic part: type list T (fixed 1..16 bits signed/unsigned, "
         "po2 1..8 bits x caps, ternary, binary, binary01, bernoulli, "
         "stochastic_*, quantized_relu(1,1), ulaw, leaky relu) - all ordered "
@@ -34,6 +43,7 @@ ASSUMPTIONS = [
     "all arithmetic exact (Fractions); no tolerance",
     "value sets as in C16: fixed k*2^-(bits-sign-int_bits); po2 operands +-2^e cut at max_val_po2; ternary/binary kinds judged by value set; a multiplier/accumulator output fed into the next operator is read from its reported fields (operand role)",
     "sum containment is decided from extremes: N*min, N*max (resp. sum of operand minima/maxima) must be members and the result step must divide the granularity (gcd of value differences) of every operand; this is necessary and sufficient for all sums because a fixed-point lattice is closed under addition inside its range; brute-force enumeration of all N-term sums (lattice <= 9 values, N <= 4) cross-checks it and a disagreement is a harness error",
+    "N = prod(kernel_shape[:-1]) for every rank (2, 3, 4) - 'a kernel of N multiply-accumulate terms' per output element; make_accumulator has no depthwise heuristic of its own: the depthwise and pooling callers (generate_layer_data_type_map.py, qtools_util.py) rewrite their kernel to (kh,kw,1,1) BEFORE the call, so (kh,kw,1,1) means kh*kw terms and (kh,kw,c_in,1) is an ordinary convolution with one filter and kh*kw*c_in terms; rank-3 Conv1D kernels are passed by the callers as they are (the library logs 'unsupported kernel shape' at CRITICAL level and sizes them by the same rule)",
     "use_bias=True is additionally required to hold N+1 terms of the multiplier type (accumulator_impl: 'each filter adds 1 bias'; the bias type is unknown to make_accumulator)",
     "Maximum/Minimum/Concatenate results must contain every operand lattice; Average is only required to cover [mean of minima, mean of maxima] after rounding towards the inside (no resolution claim); merge Multiply is C16's chain and not re-checked",
     "widening = replacing an operand type by a superset lattice (bits+1 keeping int_bits, bits+1 and int_bits+1, po2 bits+1, po2 cap doubled/removed), N+1, or adding the bias; compared fields: bits, int_bits, bits-sign-int_bits of fixed-point results",
@@ -46,7 +56,9 @@ REQUIRED_LABELS = {
               "add:FixedPointAdder", "add:Po2FixedPointAdder", "add:Po2Adder",
               "add:FloatingPointAdder", "merge:Add", "merge:Maximum", "merge:Minimum",
               "merge:Average", "merge:Concatenate", "N>=2^16", "N_pow2", "bruteforce",
-              "merge_n>2", "via:factory", "via:impl"],
+              "merge_n>2", "via:factory", "via:impl", "seq", "seq_item:acc", "seq_item:add",
+              "seq_item:merge", "seq_item:bias", "dense:co=1"] +
+             ["r%d:ci=%s,co=%s" % (r, a, b) for r in (3, 4) for a in ("1", "2", "many") for b in ("1", "2", "many")],
 }
 REQUIRED_LABELS["thorough"] = REQUIRED_LABELS["quick"]
 
@@ -92,7 +104,7 @@ def _brute_sums(lat, n):
     yield sum(combo, Fr(0))
 
 
-def conv_shape(n):
+def conv_shape(n, co=2):
   """(kh, kw, ci, co) with kh*kw*ci == n."""
   kh = kw = 1
   for f in (7, 5, 3, 2):
@@ -101,7 +113,50 @@ def conv_shape(n):
   for f in (3, 2, 5, 7):
     if n % f == 0 and kw == 1:
       kw, n = f, n // f
-  return [kh, kw, n, 2]
+  return [kh, kw, n, co]
+
+
+def conv1d_shape(n, co=2):
+  """(k, ci, co) with k*ci == n (Conv1D kernels are passed as rank 3)."""
+  k = 3 if n % 3 == 0 else (2 if n % 2 == 0 else 1)
+  return [k, n // k, co]
+
+
+def shape_for(n, k):
+  """k-th of nine shape forms with prod(shape[:-1]) == n."""
+  k %= 9
+  if k < 3:
+    return [n, (1, 2, 5)[k]]
+  if k < 6:
+    return conv_shape(n, (1, 2, 7)[k - 3])
+  return conv1d_shape(n, (1, 2, 4)[k - 6])
+
+
+def shape_family():
+  """every (c_in, c_out) in {1, 2, many}^2 for rank-4 and rank-3 kernels, and
+  dense (n, 1)."""
+  out = []
+  for kh, kw in ((1, 1), (3, 3), (2, 5)):
+    for ci in (1, 2, 16):
+      for co in (1, 2, 7):
+        out.append([kh, kw, ci, co])
+  out += [[1, 1, 64, 1], [3, 3, 16, 1]]
+  for k in (1, 3):
+    for ci in (1, 2, 16):
+      for co in (1, 2, 7):
+        out.append([k, ci, co])
+  out += [[1, 1], [2, 1], [64, 1]]
+  return out
+
+
+def _cls(v):
+  return "1" if v == 1 else ("2" if v == 2 else "many")
+
+
+def shape_label(shape):
+  if len(shape) == 2:
+    return "dense:co=%s" % _cls(shape[-1])
+  return "r%d:ci=%s,co=%s" % (len(shape), _cls(shape[-2]), _cls(shape[-1]))
 
 
 def widen_desc(d, how):
@@ -162,17 +217,27 @@ def _build(d):
 
 
 _LAST = {}
+_SHARED = {}     # non-empty while a 'seq' case runs: one factory instance of each kind
+
+
+def _new_factories():
+  from qkeras.qtools.quantized_operators import accumulator_factory, adder_factory, merge_factory, multiplier_factory  # pylint: disable=g-import-not-at-top
+  return {"mult": multiplier_factory.MultiplierFactory(), "acc": accumulator_factory.AccumulatorFactory(),
+          "add": adder_factory.IAdder(), "merge": merge_factory.MergeFactory()}
 
 
 def make_mult(w, x):
-  """(the factories deep-copy their arguments, so the last multiplier is
-  reused while consecutive cases share the operand pair)"""
+  """(the factories deep-copy their arguments, so outside shared-factory
+  sequences the last multiplier is reused while consecutive cases share the
+  operand pair)"""
   from qkeras.qtools.quantized_operators import multiplier_factory  # pylint: disable=g-import-not-at-top
   key = core.jhash([w, x])
-  if _LAST.get("key") == key:
+  if not _SHARED and _LAST.get("key") == key:
     return _LAST["m"]
   qw, qx = _build(w), _build(x)
   try:
+    if _SHARED:
+      return _SHARED["mult"].make_multiplier(qw, qx)
     m = multiplier_factory.MultiplierFactory().make_multiplier(qw, qx)
     _LAST.update(key=key, m=m)
     return m
@@ -186,7 +251,7 @@ def make_mult(w, x):
 def make_acc(m, shape, bias):
   from qkeras.qtools.quantized_operators import accumulator_factory  # pylint: disable=g-import-not-at-top
   try:
-    return accumulator_factory.AccumulatorFactory().make_accumulator(tuple(shape), m, bool(bias))
+    return (_SHARED.get("acc") or accumulator_factory.AccumulatorFactory()).make_accumulator(tuple(shape), m, bool(bias))
   except Exception as e:  # pylint: disable=broad-except
     if not _lib(e):
       raise
@@ -197,7 +262,7 @@ def make_acc(m, shape, bias):
 def make_add(qa, qb, la, lb):
   from qkeras.qtools.quantized_operators import adder_factory  # pylint: disable=g-import-not-at-top
   try:
-    return adder_factory.IAdder().make_quantizer(qa, qb)
+    return (_SHARED.get("add") or adder_factory.IAdder()).make_quantizer(qa, qb)
   except Exception as e:  # pylint: disable=broad-except
     if not _lib(e):
       raise
@@ -208,7 +273,7 @@ def make_merge(qs, op, labs):
   from qkeras.qtools.quantized_operators import merge_factory  # pylint: disable=g-import-not-at-top
   try:
     lst = [(q, {"shape": (None, 4), "name": "e%d" % i}) for i, q in enumerate(qs)]
-    return merge_factory.MergeFactory().make_quantizer(lst, op)
+    return (_SHARED.get("merge") or merge_factory.MergeFactory()).make_quantizer(lst, op)
   except Exception as e:  # pylint: disable=broad-except
     if not _lib(e):
       raise
@@ -230,7 +295,7 @@ def check_acc(case, st):
   site = type(acc).__name__
   mk = R.obj_kind(m.output)
   st["labels"] += ["acc:" + site, "mult:" + type(m).__name__, "mkind:" + mk,
-                   "shape%d" % len(shape)]
+                   "shape%d" % len(shape), shape_label(shape)]
   if n >= 1 << 16:
     st["labels"].append("N>=2^16")
   if _is_pow2(n):
@@ -533,6 +598,47 @@ def check_mono(case, st):
 CHECKS["mono"] = check_mono
 
 
+def _item_fails(item):
+  st = {"labels": [], "nobrute": False}
+  try:
+    fails, _ = CHECKS[item["t"]](item, st)
+  except LibFailure as lf:
+    fails = [lf.f]
+  return fails, st
+
+
+def check_seq(case, st):
+  """The items (acc / add / bias / merge cases) are served in order by ONE
+  instance of each factory; every result is judged by the item's own oracle.
+  An item that fails on the shared factories but not on fresh ones is
+  reported as stale_factory_state."""
+  items = case["items"]
+  shared_res = []
+  _SHARED.update(_new_factories())
+  try:
+    for it in items:
+      shared_res.append(_item_fails(it))
+  finally:
+    _SHARED.clear()
+  fails = []
+  for pos, (it, (fs, ist)) in enumerate(zip(items, shared_res)):
+    st["labels"] += ["seq_item:" + it["t"]] + [l for l in ist["labels"] if l.split(":")[0] in ("acc", "add", "merge")]
+    if not fs:
+      continue
+    fresh = set(core.fkey(sc, sig) for sc, sig, _ in _item_fails(it)[0])
+    for sc, sig, detail in fs:
+      if core.fkey(sc, sig) in fresh:
+        fails.append((sc, sig, detail))
+      else:
+        fails.append(("stale_factory_state", dict(sig, was=sc, item=it["t"]),
+                      "item #%d (%r) passes with fresh factories but fails on the shared ones: %s" % (pos, it, detail)))
+  st["labels"].append("seq_len%d" % min(len(items), 9))
+  return fails, None
+
+
+CHECKS["seq"] = check_seq
+
+
 def oracle(case, st=None):
   st = st if st is not None else {}
   st.setdefault("labels", [])
@@ -546,6 +652,8 @@ def oracle(case, st=None):
 def _descs(case):
   if case["t"] == "mono":
     return _descs(case["base"])
+  if case["t"] == "seq":
+    return [d for it in case["items"] for d in _descs(it)]
   return [case[k] for k in ("w", "x", "a", "b") if k in case] + list(case.get("ops", []))
 
 
@@ -553,6 +661,8 @@ def nontrivial(case):
   t = case["t"]
   if t == "mono":
     return True
+  if t == "seq":
+    return len(case["items"]) >= 2
   if t == "acc":
     n = 1
     for s in case["shape"][:-1]:
@@ -621,9 +731,15 @@ def cases(tier):
     for j, n in enumerate(ns):
       if (tier == "quick" and (j + idx) % 3) or (tier != "quick" and (j + idx) % 2):
         continue            # every pair gets a rotating third (thorough: half) of the N list
-      shape = [n, 3] if (j // 3 + idx) % 2 == 0 else conv_shape(n)
+      shape = shape_for(n, j // 3 + idx)
       for bias in (False, True):
         yield {"t": "acc", "w": w2, "x": x2, "shape": shape, "bias": bias}
+    if idx % 7 == 0:
+      # kernel-shape family: every (c_in, c_out) class for rank 4 / 3, dense (n,1)
+      fam = shape_family()
+      for j in range(6 if tier == "quick" else 12):
+        k = (idx // 7 * 6 + j) % len(fam)
+        yield {"t": "acc", "w": w2, "x": x2, "shape": fam[k], "bias": bool((idx + j) % 2)}
   # adders
   for a, b in itertools.product(T + fl, T + fl):
     idx += 1
@@ -650,6 +766,35 @@ def cases(tier):
       ops.append(G.with_via(M3[idx % len(M3)], idx))
     for op in (MERGE_OPS if idx % 2 else ["Add", "Maximum"]):
       yield {"t": "merge", "op": op, "ops": ops}
+
+
+def seq_cases(tier):
+  """Shared-factory sequences: families of types that differ only in
+  max_val_po2 / int_bits / class name, served by one factory of each kind."""
+  fams = G.variant_families(tier)
+  partners = G.seq_partners()
+  fam_shapes = shape_family()
+  n = 0
+  for fam in fams:
+    fam = [d for d in fam if d.get("q") != "quantized_tanh"]
+    for p in partners:
+      for od in G.orders(fam):
+        n += 1
+        vs = [G.with_via(d, n + j) for j, d in enumerate(od)]
+        pv = G.with_via(p, n // 2)
+        shape = fam_shapes[n % len(fam_shapes)]
+        yield {"t": "seq", "items": [{"t": "acc", "w": d, "x": pv, "shape": shape, "bias": bool(n % 2)} for d in vs]}
+        yield {"t": "seq", "items": [{"t": "add", "a": d, "b": pv} if n % 2 else {"t": "add", "a": pv, "b": d} for d in vs]}
+        op = MERGE_OPS[n % len(MERGE_OPS)]
+        yield {"t": "seq", "items": [{"t": "merge", "op": op, "ops": [d, pv] + ([vs[0]] if n % 3 == 0 else [])} for d in vs]}
+        if n % 3 == 0:
+          yield {"t": "seq", "items": [{"t": "bias", "w": pv, "x": pv, "shape": [4, 2], "b": d} for d in vs]}
+    # one multiplier, many kernel shapes / bias settings; one operand list, all merge layers
+    n += 1
+    w, x = G.with_via(fam[0], n), G.with_via(partners[n % len(partners)], n)
+    shapes = [fam_shapes[(n * 5 + j * 7) % len(fam_shapes)] for j in range(6)] + [[3, 3, 16, 1], [3, 3, 16, 2], [3, 3, 1, 1]]
+    yield {"t": "seq", "items": [{"t": "acc", "w": w, "x": x, "shape": sh, "bias": bool(j % 2)} for j, sh in enumerate(shapes)]}
+    yield {"t": "seq", "items": [{"t": "merge", "op": op, "ops": [w, x]} for op in MERGE_OPS + MERGE_OPS[::-1]]}
 
 
 def mono_cases(tier):
@@ -695,7 +840,15 @@ def case_strategy(st_):
     n = draw(st_.one_of(st_.integers(1, 64), st_.integers(1, 1 << 20),
                         st_.builds(lambda k, d: max(1, (1 << k) + d), st_.integers(0, 20), st_.integers(-1, 1))))
     n = min(n, 1 << 20)
-    return [n, draw(st_.integers(1, 4))] if draw(st_.booleans()) else conv_shape(n)
+    form = draw(st_.integers(0, 3))
+    co = draw(st_.sampled_from([1, 1, 2, 3, 8]))
+    if form == 0:
+      return [n, co]
+    if form == 1:
+      return conv1d_shape(n, co)
+    if form == 2:
+      return draw(st_.sampled_from(shape_family()))
+    return conv_shape(n, co)
 
   acc = st_.fixed_dictionaries({"t": st_.just("acc"), "w": ts, "x": ts, "shape": shape(), "bias": st_.booleans()})
   add = st_.fixed_dictionaries({"t": st_.just("add"), "a": ts, "b": ts})
@@ -708,14 +861,32 @@ def case_strategy(st_):
                               "how": st_.sampled_from(WIDENINGS), "index": st_.integers(0, 3)}),
       st_.just({"target": "shape", "how": "N+1"}), st_.just({"target": "bias", "how": "bias_on"}))
   mono = st_.fixed_dictionaries({"t": st_.just("mono"), "base": basec, "widen": wd})
-  return st_.one_of(acc, add, bias, merge, mono, mono)
+  vs = G.variant_strategy(st_).map(lambda l: [d for d in l if d.get("q") != "quantized_tanh"] or [{"k": "ternary", "via": "impl"}])
+
+  @st_.composite
+  def seq(draw):
+    ws, xs = draw(vs), draw(vs)
+    k = draw(st_.integers(2, 5))
+    items = []
+    for _ in range(k):
+      w, x = ws[draw(st_.integers(0, 3)) % len(ws)], xs[draw(st_.integers(0, 3)) % len(xs)]
+      kind = draw(st_.integers(0, 2))
+      if kind == 0:
+        items.append({"t": "acc", "w": w, "x": x, "shape": draw(shape()), "bias": draw(st_.booleans())})
+      elif kind == 1:
+        items.append({"t": "add", "a": w, "b": x})
+      else:
+        items.append({"t": "merge", "op": draw(st_.sampled_from(MERGE_OPS)), "ops": [w, x]})
+    return {"t": "seq", "items": items}
+
+  return st_.one_of(acc, add, bias, merge, mono, mono, seq())
 
 
 def run(ctx):
   from hypothesis import strategies as st_  # pylint: disable=g-import-not-at-top
   ctx.info["exhaustive"] = False
   n_det = 0
-  for stream in (cases(ctx.tier), mono_cases(ctx.tier)):
+  for stream in (cases(ctx.tier), seq_cases(ctx.tier), mono_cases(ctx.tier)):
     for i, case in enumerate(ctx.shard(stream)):
       if i % 256 == 0 and ctx.time_left() <= 0:
         ctx.labels["inconclusive_time"] += 1
